@@ -5,6 +5,11 @@
   * `BlockGen`: seeded random generator of update blocks over signals of the widths
     {1,2,7,8,31,32,33,49,50,64,65,70}, literals up to 2^70 (2^k, 2^k +- 1 boundaries), loops,
     temporaries, struct fields, if-expressions, constant slices, (un)equal shifts, casts
+  * bitstruct shapes (leaf / struct / list, the JSON form of spec/BitStruct.tla), a catalogue of struct types
+    with nested structs and 1-D/2-D/3-D list fields, seeded random struct types; field access at every
+    depth, list-field indexing per dimension (constant, loop variable, signal; partial indexing), whole-struct
+    reads / writes, struct <-> BitsN assignment, struct temporaries / constants / instances, struct ports of
+    sub-components, interfaces and port arrays
   * `module_source()`: one importable component class per block
   * `from_model()`: TLC state (tree of records of RTLIRTypes.tla) -> block
 """
@@ -33,6 +38,111 @@ def bitlen(v):
 
 
 # ------------------------------------------------------------------------------------------
+# shapes of bitstruct types (the JSON form of spec/BitStruct.tla: leaf / struct / list)
+# ------------------------------------------------------------------------------------------
+
+def leaf(w):
+    return {"k": "leaf", "w": w}
+
+
+def lst(dims, t):
+    """[..[t]*dims[-1]..]*dims[0]: dims[0] is the outermost dimension (the first index)"""
+    for n in reversed(dims):
+        t = {"k": "list", "n": n, "t": t}
+    return t
+
+
+def struct(name, fields):
+    """fields: [(name, shape)]; `cls` is the Python class name (not part of the TLA+ shape)"""
+    return {"k": "struct", "cls": name, "fs": [{"n": f, "t": t} for f, t in fields]}
+
+
+def type_source(sh):
+    """Python source of the type annotation of a field of shape sh"""
+    if sh["k"] == "leaf":
+        return "Bits%d" % sh["w"]
+    if sh["k"] == "list":
+        return "[ %s ] * %d" % (type_source(sh["t"]), sh["n"])
+    return sh["cls"]
+
+
+def collect_structs(sh, acc):
+    """class name -> shape of every bitstruct class below sh, nested classes first"""
+    if sh["k"] == "list":
+        collect_structs(sh["t"], acc)
+    elif sh["k"] == "struct":
+        for f in sh["fs"]:
+            collect_structs(f["t"], acc)
+        if sh["cls"] in acc:
+            assert acc[sh["cls"]] == sh, (sh["cls"], sh, acc[sh["cls"]])
+        acc[sh["cls"]] = sh
+    return acc
+
+
+def endpoints(sh, prefix=()):
+    """every access path below a value of shape sh: [(steps, shape)], steps: ("f", name) | ("i", n)"""
+    out = [(prefix, sh)]
+    if sh["k"] == "struct":
+        for f in sh["fs"]:
+            out += endpoints(f["t"], prefix + (("f", f["n"]),))
+    elif sh["k"] == "list":
+        out += endpoints(sh["t"], prefix + (("i", sh["n"]),))
+    return out
+
+
+def same_shape(a, b):
+    return a == b
+
+
+def clog2(n):
+    return 1 if n <= 1 else (n - 1).bit_length()
+
+
+def access(base, sh, steps, index):
+    """apply the steps to the expression `base` of shape sh; index(n) -> index expression for a dimension of n"""
+    e = base
+    for st in steps:
+        if st[0] == "f":
+            sh = next(f["t"] for f in sh["fs"] if f["n"] == st[1])
+            e = {"k": "field", "a": e, "name": st[1], "w": shape_nbits(sh), "ty": sh, "st": sh["k"] == "struct"}
+        else:
+            sh = sh["t"]
+            e = {"k": "idx", "a": e, "i": index(st[1]), "w": shape_nbits(sh), "ty": sh, "st": sh["k"] == "struct"}
+    return e
+
+
+def type_class(sh):
+    """short class of a shape for violation keys: bits | list<k>d | struct[list<k>d][nested]"""
+    def walk(x, top):
+        md, nested = 0, False
+        if x["k"] == "list":
+            k, y = 0, x
+            while y["k"] == "list":
+                k, y = k + 1, y["t"]
+            m2, n2 = walk(y, False)
+            return max(k, m2), n2 or y["k"] == "struct"
+        if x["k"] == "struct":
+            for f in x["fs"]:
+                m2, n2 = walk(f["t"], False)
+                md, nested = max(md, m2), nested or n2 or f["t"]["k"] == "struct"
+        return md, nested
+    if sh["k"] == "leaf":
+        return "bits"
+    md, nested = walk(sh, True)
+    if sh["k"] == "list":
+        return "list%dd" % md
+    return "struct" + ("[list%dd]" % md if md else "") + ("[nested]" if nested else "")
+
+
+def shape_nbits(sh):
+    if sh["k"] == "leaf":
+        return sh["w"]
+    if sh["k"] == "list":
+        return sh["n"] * shape_nbits(sh["t"])
+    return sum(shape_nbits(f["t"]) for f in sh["fs"])
+
+
+# ------------------------------------------------------------------------------------------
 # rendering
 # ------------------------------------------------------------------------------------------
 
@@ -42,6 +152,12 @@ def render(n):
         return "s." + n["name"]
     if k == "field":
         return "%s.%s" % (render(n["a"]), n["name"])
+    if k == "idx":                       # one dimension of a list field
+        return "%s[%s]" % (render(n["a"]), render(n["i"]))
+    if k == "sinst":
+        return "%s( %s )" % (n["cls"], ", ".join(render(x) for x in n["args"]))
+    if k == "sconst":                    # bitstruct free variable (module global)
+        return n["name"]
     if k == "num":
         v = n["v"]
         return hex(v) if n.get("hex") else str(v)
@@ -103,13 +219,36 @@ def render_stmt(st, ind, out, ff=False):
 # shape (kind sequence in c10_obs.convert order)
 # ------------------------------------------------------------------------------------------
 
+def _const_path(n):
+    """a field / constant-index chain into a bitstruct constant"""
+    while n["k"] in ("field", "idx"):
+        if n["k"] == "idx" and n["i"]["k"] != "num":
+            return False
+        n = n["a"]
+    return n["k"] == "sconst"
+
+
 def _shape_expr(n, out):
     k = n["k"]
+    if k in ("field", "idx") and n["ty"]["k"] == "leaf" and _const_path(n):
+        # the generation pass folds a Bits field of a constant struct to a sized constant (all fields are 0)
+        out.append(("bconst", n["w"], 0))
+        return
     if k == "sig":
         out.append(("sig", n["w"]))
     elif k == "field":
         _shape_expr(n["a"], out)
         out.append(("field", n["w"]))
+    elif k == "idx":
+        _shape_expr(n["a"], out)
+        _shape_expr(n["i"], out)
+        out.append(("idx", n["w"]))
+    elif k == "sinst":
+        for x in n["args"]:
+            _shape_expr(x, out)
+        out.append(("sinst", len(n["args"])))
+    elif k == "sconst":
+        out.append(("sig", n["w"]))
     elif k in ("num", "gnum"):
         out.append(("num", n["v"]))
     elif k == "bconst":
@@ -203,18 +342,31 @@ class Block:
         self.ff = ff
         self.tag = tag
         self.decls = {}       # signal name -> ("in"|"out", type string)
-        self.arrays = {}      # name -> width
+        self.arrays = {}      # name -> type string
         self.gconsts = {}     # global name -> source expr
+        self.structs = {}     # bitstruct class name -> shape
+        self.subports = {}    # port name of the sub-component s.sub -> ("in"|"out", type string)
+        self.ifcports = {}    # port name of the interface s.ifc -> ("in"|"out", type string)
         self._collect()
 
     def _collect(self):
         def ex(n, store=False):
             k = n["k"]
+            if "ty" in n:
+                collect_structs(n["ty"], self.structs)
             if k == "sig":
-                d = "out" if (store or n["name"][0] in "op") else "in"
-                self.decls[n["name"]] = (d, "St" if n.get("st") else "Bits%d" % n["w"])
+                tstr = (n["ty"]["cls"] if "ty" in n else "St") if n.get("st") else "Bits%d" % n["w"]
+                if n["name"].startswith("sub."):          # s.sub.pi_*: in-port of the child (written here)
+                    self.subports[n["name"][4:]] = ("in" if n["name"][4:6] == "pi" else "out", tstr)
+                elif n["name"].startswith("ifc."):        # s.ifc.pi_*: in-port of the top-level interface
+                    self.ifcports[n["name"][4:]] = ("in" if n["name"][4:6] == "pi" else "out", tstr)
+                else:
+                    d = "out" if (store or n["name"][0] in "op") else "in"
+                    self.decls[n["name"]] = (d, tstr)
             elif k == "elem":
-                self.arrays[n["name"]] = n["w"]
+                self.arrays[n["name"]] = n["ty"]["cls"] if n.get("st") else "Bits%d" % n["w"]
+            elif k == "sconst":
+                self.gconsts[n["name"]] = "%s()" % n["ty"]["cls"]
             elif k == "gnum":
                 self.gconsts[n["name"]] = str(n["v"])
             elif k == "bconst":
@@ -258,6 +410,17 @@ def module_source(blocks):
     for f, w in STRUCT_FIELDS:
         src.append("  %s: Bits%d" % (f, w))
     src.append("")
+    sdone = {"St": ST_SHAPE}
+    for b in blocks:
+        for cls, sh in b.structs.items():      # insertion order: nested classes first
+            if cls in sdone:
+                assert sdone[cls] == sh, (cls, sh, sdone[cls])
+                continue
+            sdone[cls] = sh
+            src += ["@bitstruct", "class %s:" % cls]
+            for f in sh["fs"]:
+                src.append("  %s: %s" % (f["n"], type_source(f["t"])))
+            src.append("")
     gdone = {}
     for b in blocks:
         for g, e in sorted(b.gconsts.items()):
@@ -268,12 +431,23 @@ def module_source(blocks):
             src.append("%s = %s" % (g, e))
     src.append("")
     for b in blocks:
+        for what, base, ports in (("Sub", "Component", b.subports), ("Ifc", "Interface", b.ifcports)):
+            if ports:
+                src.append("class %s_%s( %s ):" % (b.name, what, base))
+                src.append("  def construct( s ):")
+                for nm, (d, ty) in sorted(ports.items()):
+                    src.append("    s.%s = %s( %s )" % (nm, "InPort" if d == "in" else "OutPort", ty))
+                src.append("")
         src.append("class %s( Component ):" % b.name)
         src.append("  def construct( s ):")
         for nm, (d, ty) in sorted(b.decls.items()):
             src.append("    s.%s = %s( %s )" % (nm, "InPort" if d == "in" else "OutPort", ty))
-        for nm, w in sorted(b.arrays.items()):
-            src.append("    s.%s = [ InPort( Bits%d ) for _ in range(%d) ]" % (nm, w, ARR_LEN))
+        for nm, ty in sorted(b.arrays.items()):
+            src.append("    s.%s = [ InPort( %s ) for _ in range(%d) ]" % (nm, ty, ARR_LEN))
+        if b.subports:
+            src.append("    s.sub = %s_Sub()" % b.name)
+        if b.ifcports:
+            src.append("    s.ifc = %s_Ifc()" % b.name)
         src.append("    @%s" % ("update_ff" if b.ff else "update"))
         src.append("    def blk():")
         for l in b.lines():
@@ -287,7 +461,109 @@ def module_source(blocks):
 # ------------------------------------------------------------------------------------------
 
 def sig(name, w, st=False):
-    return {"k": "sig", "name": name, "w": w, "st": st}
+    n = {"k": "sig", "name": name, "w": w, "st": st}
+    if st:
+        n["ty"] = ST_SHAPE
+    return n
+
+
+def ssig(name, sh):
+    """a signal of shape sh (struct or leaf)"""
+    return {"k": "sig", "name": name, "w": shape_nbits(sh), "st": sh["k"] == "struct", "ty": sh}
+
+
+# the catalogue of bitstruct types (leaf widths from WIDTHS so that fields are usable as operands anywhere)
+ST_SHAPE = struct("St", [(f, leaf(w)) for f, w in STRUCT_FIELDS])
+FL = struct("Fl", [("a", leaf(7)), ("b", leaf(1))])                                        # flat: 8
+P1 = struct("P1", [("hdr", leaf(8)), ("d", lst([6], leaf(2)))])                            # 8 + 6*2 = 20
+P2 = struct("P2", [("hdr", leaf(7)), ("d", lst([2, 3], leaf(2))), ("e", leaf(1))])         # 7 + 2*3*2 + 1 = 20
+P3 = struct("P3", [("hdr", leaf(2)), ("d", lst([2, 2, 3], leaf(1)))])                      # 2 + 2*2*3*1 = 14
+NST = struct("Nst", [("tag", leaf(2)), ("f", FL), ("g", lst([2], FL)), ("m", lst([3, 2], FL)),
+                     ("q", P2), ("v", lst([2, 2], leaf(33)))])                             # 2+8+16+48+20+132 = 226
+DEEP = struct("Deep", [("n", NST), ("r", lst([2], P3)), ("z", leaf(1))])                   # 226 + 28 + 1 = 255
+CATALOGUE = [ST_SHAPE, FL, P1, P2, P3, NST, DEEP]
+
+
+def random_struct(R, name, depth=2, counter=None):
+    """a seeded random bitstruct type: 1-4 fields; BitsN, 1-3 dimensional lists, nested structs"""
+    counter = counter if counter is not None else [0]
+    fields = []
+    for j in range(R.randint(1, 4)):
+        c = R.random()
+        if c < 0.35 or depth <= 0:
+            t = leaf(R.choice([1, 2, 3, 5, 7, 8, 9, 31, 32, 33]))
+        elif c < 0.55 and depth > 0:
+            counter[0] += 1
+            t = random_struct(R, "%s_%d" % (name, counter[0]), depth - 1, counter)
+        else:
+            dims = [R.choice([1, 2, 2, 3, 4, 5]) for _ in range(R.choice([1, 2, 2, 3]))]
+            if R.random() < 0.3 and depth > 0:
+                counter[0] += 1
+                el = random_struct(R, "%s_%d" % (name, counter[0]), depth - 1, counter)
+            else:
+                el = leaf(R.choice([1, 2, 3, 7, 8]))
+            t = lst(dims, el)
+        fields.append(("f%d" % j, t))
+    return struct(name, fields)
+
+
+def first_dim_only_nbits(sh):
+    """the width a checker would compute if it multiplied the element width by the OUTERMOST dimension only"""
+    if sh["k"] == "leaf":
+        return sh["w"]
+    if sh["k"] == "struct":
+        return sum(first_dim_only_nbits(f["t"]) for f in sh["fs"])
+    el = sh
+    while el["k"] == "list":
+        el = el["t"]
+    return sh["n"] * first_dim_only_nbits(el)
+
+
+def plausible_wrong_widths(sh):
+    """widths a faulty width computation would give for shape sh (all different from the real width)"""
+    w = shape_nbits(sh)
+
+    def inner_dim_only(x):
+        if x["k"] == "leaf":
+            return x["w"]
+        if x["k"] == "struct":
+            return sum(inner_dim_only(f["t"]) for f in x["fs"])
+        n = x["n"]
+        while x["t"]["k"] == "list":
+            x = x["t"]
+            n = x["n"]
+        return n * inner_dim_only(x["t"])
+
+    def sum_dims(x):
+        if x["k"] == "leaf":
+            return x["w"]
+        if x["k"] == "struct":
+            return sum(sum_dims(f["t"]) for f in x["fs"])
+        n = 0
+        while x["k"] == "list":
+            n += x["n"]
+            x = x["t"]
+        return n * sum_dims(x)
+
+    def no_dims(x):
+        if x["k"] == "leaf":
+            return x["w"]
+        if x["k"] == "struct":
+            return sum(no_dims(f["t"]) for f in x["fs"])
+        return no_dims(x["t"])
+
+    def first_field(x):
+        return shape_nbits(x["fs"][0]["t"]) if x["k"] == "struct" else shape_nbits(x)
+
+    def last_field_dropped(x):
+        return sum(shape_nbits(f["t"]) for f in x["fs"][:-1]) if x["k"] == "struct" else shape_nbits(x)
+    cand = [first_dim_only_nbits(sh), inner_dim_only(sh), sum_dims(sh), no_dims(sh), first_field(sh),
+            last_field_dropped(sh), w - 1, w + 1]
+    out = []
+    for c in cand:
+        if c != w and c >= 1 and c not in out:
+            out.append(c)
+    return out
 
 
 def num(v, hexa=False):
@@ -348,7 +624,7 @@ class BlockGen:
             return self.leaf(w)
         opts = ["leaf", "leaf", "binop", "binop", "binlit", "unop", "shift", "ifexp", "cast", "tmp"]
         if w == 1:
-            opts += ["cmp", "cmp", "cmplit", "reduce", "bit", "bit"]
+            opts += ["cmp", "cmp", "cmplit", "reduce", "bit", "bit", "scmp"]
         if w >= 2:
             opts += ["concat"]
         if any(x < w for x in WIDTHS):
@@ -415,6 +691,9 @@ class BlockGen:
             if R.random() < 0.7:
                 return {"k": "cmp", "op": R.choice(CMP_OPS), "a": e, "b": lit}
             return {"k": "cmp", "op": R.choice(CMP_OPS), "a": lit, "b": e}
+        if c == "scmp":
+            S = R.choice(self.struct_shapes)
+            return {"k": "cmp", "op": R.choice(["==", "!="]), "a": self.struct_expr(S, d), "b": self.struct_expr(S, d)}
         if c == "reduce":
             return {"k": "reduce", "op": R.choice(["and", "or", "xor"]), "a": self.explicit(self.pick_w(), d)}
         if c == "bit":
@@ -456,9 +735,9 @@ class BlockGen:
     def leaf(self, w):
         R = self.R
         c = R.random()
-        fl = [(f, fw) for f, fw in STRUCT_FIELDS if fw == w]
-        if c < 0.1 and fl:
-            return {"k": "field", "a": sig("ist", sum(x for _, x in STRUCT_FIELDS), True), "name": fl[0][0], "w": w}
+        if c < 0.12 and self.by_leaf.get(w):
+            S, steps = R.choice(self.by_leaf[w])
+            return access(self.struct_root(S), S, steps, self.index_expr)
         if c < 0.2 and w in (8, 32):
             r = R.random()
             if r < 0.5:
@@ -510,6 +789,121 @@ class BlockGen:
             return {"k": "binop", "op": R.choice(["+", "*"]), "a": {"k": "loopvar", "name": n}, "b": num(R.choice([1, 2]))}
         return self.lit_fitting(w)
 
+    # -- bitstructs ----------------------------------------------------------------------
+    def set_catalogue(self, cat):
+        self.cat = cat
+        self.by_leaf = {}            # width -> [(root struct, steps)] of the leaf endpoints
+        self.by_cls = {}             # class name -> [(root struct, steps)] of the nested endpoints of that struct type
+        self.lists = []              # [(root struct, steps, shape)] of the (partially indexed) list endpoints
+        self.struct_shapes = []      # every struct type, nested ones included
+        for S in cat:
+            for steps, sh in endpoints(S):
+                if sh["k"] == "leaf":
+                    self.by_leaf.setdefault(sh["w"], []).append((S, steps))
+                elif sh["k"] == "list":
+                    self.lists.append((S, steps, sh))
+                else:
+                    if steps:
+                        self.by_cls.setdefault(sh["cls"], []).append((S, steps))
+                    if all(x["cls"] != sh["cls"] for x in self.struct_shapes):
+                        self.struct_shapes.append(sh)
+
+    def index_expr(self, n):
+        """an index for a list dimension of n elements: constant, loop variable or a signal of clog2(n) bits"""
+        R = self.R
+        if self.wildly():
+            return num(n + R.randint(0, 2)) if R.random() < 0.5 else self.in_sig(clog2(n) + 1)
+        r = R.random()
+        if r < 0.5:
+            return num(R.randrange(n))
+        lv = [nm for nm, m in self.loops if m < n]
+        if r < 0.75 and lv:
+            return {"k": "loopvar", "name": R.choice(lv)}
+        return self.in_sig(clog2(n))
+
+    def struct_root(self, S, out=False):
+        """a signal-like expression of struct type S: top-level port, port of the sub-component / the
+        interface, element of a port array, constant, temporary"""
+        R = self.R
+        cls = S["cls"]
+        r = R.random()
+        if out:
+            if r < 0.7:
+                return ssig("ost_%s" % cls, S)
+            return ssig(("sub.pi_%s" if r < 0.85 else "ifc.po_%s") % cls, S)
+        if r < 0.5:
+            return ssig("%sst_%s" % (R.choice("ij"), cls), S)
+        if r < 0.6:
+            return ssig("sub.po_%s" % cls, S)
+        if r < 0.7:
+            return ssig("ifc.pi_%s" % cls, S)
+        if r < 0.8:
+            return {"k": "elem", "name": "ars_%s" % cls, "n": ARR_LEN, "w": shape_nbits(S), "st": True, "ty": S,
+                    "i": self.index_expr(ARR_LEN)}
+        if r < 0.88:
+            return {"k": "sconst", "name": "KS_%s" % cls, "w": shape_nbits(S), "st": True, "ty": S}
+        t = [n for n, sh in self.stmps.items() if sh["cls"] == cls]
+        if t:
+            return {"k": "tmp", "name": R.choice(t)}
+        return ssig("ist_%s" % cls, S)
+
+    def struct_expr(self, S, depth):
+        """an expression of struct type S"""
+        R = self.R
+        if self.wildly():
+            S = R.choice(self.struct_shapes)                 # (probably) another struct type
+        r = R.random()
+        nested = self.by_cls.get(S["cls"], [])
+        if r < 0.35 and nested:
+            T, steps = R.choice(nested)
+            return access(self.struct_root(T), T, steps, self.index_expr)
+        if r < 0.45 and depth > 0:
+            return {"k": "ifexp", "c": self.explicit(1, 0), "a": self.struct_expr(S, depth - 1),
+                    "b": self.struct_expr(S, depth - 1)}
+        if r < 0.6 and all(f["t"]["k"] == "leaf" for f in S["fs"]):
+            args = []
+            for f in S["fs"]:
+                fw = f["t"]["w"]
+                args.append(self.explicit(fw, depth - 1) if R.random() < 0.6 else self.implicit(fw, 0))
+            return {"k": "sinst", "cls": S["cls"], "ty": S, "w": shape_nbits(S), "st": True, "args": args}
+        return self.struct_root(S)
+
+    def struct_target(self, S):
+        R = self.R
+        nested = self.by_cls.get(S["cls"], [])
+        if R.random() < 0.4 and nested:
+            T, steps = R.choice(nested)
+            return access(self.struct_root(T, out=True), T, steps, self.index_expr)
+        return self.struct_root(S, out=True)
+
+    def struct_stmt(self, depth):
+        """whole-struct statements: copy, struct -> BitsN, BitsN -> struct, struct temporaries, list fields"""
+        R = self.R
+        S = R.choice(self.struct_shapes)
+        w = shape_nbits(S)
+        c = R.random()
+        if c < 0.3:
+            return [{"k": "assign", "t": self.struct_target(S), "v": self.struct_expr(S, depth)}]
+        if c < 0.8:
+            n = w
+            if R.random() < 0.2 or self.wildly():
+                n = R.choice(plausible_wrong_widths(S))
+            if c < 0.55:        # pack
+                return [{"k": "assign", "t": sig("o%d_%d" % (n, R.randint(0, 1)), n), "v": self.struct_expr(S, depth)}]
+            v = self.explicit(n, depth - 1) if R.random() < 0.85 else self.implicit(n, 0)
+            return [{"k": "assign", "t": self.struct_target(S), "v": v}]
+        if c < 0.9:
+            name = "u%d" % len(self.stmps)
+            st = {"k": "assign", "t": {"k": "tmpdef", "name": name}, "v": self.struct_expr(S, depth - 1)}
+            if st["v"]["k"] == "tmp" or _shape_of_expr(st["v"], self.stmps) is None:
+                return [self.assign(depth)]
+            self.stmps[name] = _shape_of_expr(st["v"], self.stmps)
+            return [st, {"k": "assign", "t": self.struct_target(S), "v": self.struct_expr(S, depth)}]
+        # a (partially indexed) list field on both sides
+        T, steps, sh = R.choice(self.lists)
+        return [{"k": "assign", "t": access(self.struct_root(T, out=True), T, steps, self.index_expr),
+                 "v": access(self.struct_root(T), T, steps, self.index_expr)}]
+
     # -- statements ----------------------------------------------------------------------
     def target(self, w):
         R = self.R
@@ -527,9 +921,9 @@ class BlockGen:
             lv = [n for n, m in self.loops if m < bw]
             idx = {"k": "loopvar", "name": R.choice(lv)} if (lv and R.random() < 0.6) else num(R.randrange(bw))
             return {"k": "bit", "a": self.fresh_out(bw), "i": idx}
-        fl = [(f, fw) for f, fw in STRUCT_FIELDS if fw == w]
-        if fl:
-            return {"k": "field", "a": sig("ost", sum(x for _, x in STRUCT_FIELDS), True), "name": fl[0][0], "w": w}
+        if self.by_leaf.get(w):
+            S, steps = R.choice(self.by_leaf[w])
+            return access(self.struct_root(S, out=True), S, steps, self.index_expr)
         return sig("o%d_%d" % (w, R.randint(0, 1)), w)
 
     def fresh_out(self, w):
@@ -551,6 +945,8 @@ class BlockGen:
     def stmt(self, depth, nest):
         R = self.R
         c = R.random()
+        if c < 0.10:
+            return self.struct_stmt(depth)
         if c < 0.60 or nest >= 2:
             return [self.assign(depth)]
         if c < 0.72:
@@ -567,11 +963,11 @@ class BlockGen:
             return [st, self.assign(depth)]
         if c < 0.84:
             cond = self.explicit(1, depth - 1) if R.random() < 0.7 else self.explicit(self.pick_w(), 0)
-            tm = dict(self.tmps)
+            tm, stm = dict(self.tmps), dict(self.stmps)
             body = self.stmt(depth - 1, nest + 1)
-            self.tmps = dict(tm)
+            self.tmps, self.stmps = dict(tm), dict(stm)
             orelse = self.stmt(depth - 1, nest + 1) if R.random() < 0.5 else []
-            self.tmps = tm
+            self.tmps, self.stmps = tm, stm
             return [{"k": "if", "c": cond, "body": body, "orelse": orelse}]
         # for loop
         var = "i%d" % nest if not any(n == "i%d" % nest for n, _ in self.loops) else "j%d" % len(self.loops)
@@ -592,25 +988,38 @@ class BlockGen:
             rng, vals = [num(s0), num(0), {"k": "unop", "op": "-", "a": num(1)}], range(s0, 0, -1)
         m = max(vals) if len(vals) else max(x["v"] for x in rng if x["k"] == "num")
         self.loops.append((var, m))
-        tm = dict(self.tmps)
+        tm, stm = dict(self.tmps), dict(self.stmps)
         body = []
         for _ in range(R.randint(1, 2)):
             body += self.stmt(depth - 1, nest + 1)
-        self.tmps = tm
+        self.tmps, self.stmps = tm, stm
         self.loops.pop()
         return [{"k": "for", "var": var, "range": rng, "body": body}]
 
     def block(self, name, depth=None):
         R = self.R
         self.tmps = {}
+        self.stmps = {}       # struct-typed temporaries: name -> shape
         self.loops = []
         self.nout = 0
+        self.set_catalogue(CATALOGUE + ([random_struct(R, "R" + name)] if R.random() < 0.3 else []))
         depth = R.choice([1, 2, 2, 3]) if depth is None else depth
         stmts = []
         for _ in range(R.choice([1, 1, 2, 3])):
             stmts += self.stmt(depth, 0)
         ff = R.random() < 0.12 and not _has_tmp_or_slice_target(stmts)
         return Block(name, stmts, ff=ff)
+
+
+def _shape_of_expr(e, stmps):
+    """shape of a struct-typed expression of the generator (None: not known)"""
+    if "ty" in e:
+        return e["ty"]
+    if e["k"] == "tmp":
+        return stmps.get(e["name"])
+    if e["k"] == "ifexp":
+        return _shape_of_expr(e["a"], stmps)
+    return None
 
 
 def _has_tmp_or_slice_target(stmts):
@@ -680,12 +1089,13 @@ def loop_blocks():
     """loop variables of every small range against assignment, arithmetic, comparison and index contexts"""
     out = []
     j = 0
-    for rng_ in ([2], [3], [4], [5], [8], [9], [1, 4], [2, 8, 3], [0, 9, 2], [0, 32], [0, 33]):
+    for rng_ in ([2], [3], [4], [5], [8], [9], [1, 4], [2, 8, 3], [0, 9, 2], [0, 32], [0, 33],
+                 [5, 0, -1], [6, 1, -2], [9, 2, -3], [32, 0, -8], [3, 0, -1]):      # descending: the first value is the largest
         vals = range(*rng_)
         m = max(vals)
         w = bitlen(m)
         lv = {"k": "loopvar", "name": "i"}
-        for form in range(6):
+        for form in range(8):
             ww = min(x for x in WIDTHS if x >= w)
             if form == 0:      # loop variable assigned to a signal that just holds it
                 body = {"k": "assign", "t": sig("o%d_0" % ww, ww), "v": lv}
@@ -696,14 +1106,21 @@ def loop_blocks():
                         "v": {"k": "binop", "op": "+", "a": sig("i%d_0" % ww, ww), "b": lv}}
             elif form == 3:    # compared with a signal
                 body = {"k": "assign", "t": sig("o1_0", 1), "v": {"k": "cmp", "op": "==", "a": lv, "b": sig("i%d_0" % ww, ww)}}
+            elif form == 6:    # assigned to a signal of exactly the bits of the largest value
+                body = {"k": "assign", "t": sig("o%d_0" % w, w), "v": lv}
+            elif form == 7:    # ... of the bits of the last value (too narrow for a descending loop)
+                lw = bitlen(vals[-1])
+                if lw >= w:
+                    continue
+                body = {"k": "assign", "t": sig("o%d_0" % lw, lw), "v": lv}
             elif form == 4:    # bit index
                 bw = min(x for x in WIDTHS if x > m)
                 body = {"k": "assign", "t": {"k": "bit", "a": sig("p%d_0" % bw, bw), "i": lv},
                         "v": {"k": "bit", "a": sig("i%d_0" % bw, bw), "i": lv}}
             else:              # shifted
                 body = {"k": "assign", "t": sig("o%d_0" % ww, ww), "v": {"k": "shift", "op": "<<", "a": sig("i%d_0" % ww, ww), "b": lv}}
-            out.append(Block("Lp%d" % j, [{"k": "for", "var": "i", "range": [num(x) for x in rng_], "body": [body]}],
-                             tag="loop"))
+            rexp = [num(x) if x >= 0 else {"k": "unop", "op": "-", "a": num(-x)} for x in rng_]
+            out.append(Block("Lp%d" % j, [{"k": "for", "var": "i", "range": rexp, "body": [body]}], tag="loop"))
             j += 1
     return out
 
@@ -775,6 +1192,134 @@ def shape_blocks():
     return out
 
 
+def struct_blocks(R, nrandom, light=False):
+    """systematic bitstruct family: for every struct type of the catalogue and `nrandom` seeded random struct
+    types, every access path (fields at every depth, every list dimension indexed by a constant / a signal / a
+    loop variable, partial indexing) is read, written and copied; every struct-typed endpoint is assigned to /
+    from a BitsN signal of the right width and of every width a faulty width computation would give, copied
+    through a temporary and compared; the whole struct also through ports of a sub-component, an interface,
+    a port array and as a constant"""
+    out = []
+
+    def add(stmts, tag="struct"):
+        out.append(Block("Sf%d" % len(out), stmts, tag=tag))
+
+    def asg(t, v):
+        return {"k": "assign", "t": t, "v": v}
+
+    def const_index(j):
+        return lambda n: num((0, n - 1, n // 2)[j % 3])
+
+    def var_index(n):
+        return sig("x%d_%d" % (clog2(n), n), clog2(n))
+
+    shapes = list(CATALOGUE[1:]) + [random_struct(R, "Rs%d" % j, depth=2) for j in range(nrandom)]
+    for sn, S in enumerate(shapes):
+        cls = S["cls"]
+        eps = endpoints(S)
+        big = len(eps) > 40
+        for en, (steps, sh) in enumerate(eps):
+            w = shape_nbits(sh)
+            ndim = sum(1 for st in steps if st[0] == "i")
+            ixs = [const_index(en)] + ([var_index] if ndim else [])
+            if ndim and not (light and big):
+                ixs.append(const_index(en + 1))
+            for ix in ixs:
+                src = access(ssig("ist_" + cls, S), S, steps, ix)
+                dst = access(ssig("ost_" + cls, S), S, steps, ix)
+                if sh["k"] == "list":
+                    add([asg(dst, src)])                                   # list @= list (no width involved)
+                    if not big:
+                        add([asg(sig("o%d_0" % w, w), src)])               # vector @= list
+                    continue
+                add([asg(sig("o%d_0" % w, w), src)])                       # read / pack
+                add([asg(dst, sig("i%d_0" % w, w))])                       # write / unpack
+                if sh["k"] == "struct":
+                    add([asg(dst, src)])
+            if ndim:
+                # loop variable on the first list dimension, constants on the others
+                first = [True]
+                dim0 = next(st[1] for st in steps if st[0] == "i")
+
+                def lix(n):
+                    if first[0]:
+                        first[0] = False
+                        return {"k": "loopvar", "name": "i"}
+                    return num(n - 1)
+                src = access(ssig("ist_" + cls, S), S, steps, lix)
+                first[0] = True
+                dst = access(ssig("ost_" + cls, S), S, steps, lix)
+                if sh["k"] != "list" and not (light and big and en % 3):
+                    add([{"k": "for", "var": "i", "range": [num(dim0)], "body": [asg(dst, src)]}])
+            if sh["k"] != "struct":
+                continue
+            ix = const_index(en)
+            src = access(ssig("ist_" + cls, S), S, steps, ix)
+            dst = access(ssig("ost_" + cls, S), S, steps, ix)
+            wrong = plausible_wrong_widths(sh)
+            if light and big:
+                wrong = wrong[:3]
+            for n in wrong:
+                add([asg(sig("o%d_0" % n, n), src)], "struct-wrong-width")
+                add([asg(dst, sig("i%d_0" % n, n))], "struct-wrong-width")
+            tname = {"k": "tmpdef", "name": "u"}
+            tmp = {"k": "tmp", "name": "u"}
+            add([asg(tname, src), asg(dst, tmp)])
+            add([asg(tname, src), asg(sig("o%d_0" % w, w), tmp)])
+            if sh["fs"][0]["t"]["k"] == "leaf":
+                fw = sh["fs"][0]["t"]["w"]
+                add([asg(tname, src), asg(sig("o%d_0" % fw, fw),
+                                          access(tmp, sh, (("f", sh["fs"][0]["n"]),), ix))])
+            other = access(ssig("jst_" + cls, S), S, steps, ix)
+            add([asg(sig("o1_0", 1), {"k": "cmp", "op": "==", "a": src, "b": other})])
+            add([asg(dst, {"k": "ifexp", "c": sig("i1_0", 1), "a": src, "b": other})])
+            if all(f["t"]["k"] == "leaf" for f in sh["fs"]):
+                def inst(delta):
+                    return {"k": "sinst", "cls": sh["cls"], "ty": sh, "w": w, "st": True,
+                            "args": [sig("i%d_%d" % (f["t"]["w"] + (delta if j == 0 else 0), j % 2),
+                                         f["t"]["w"] + (delta if j == 0 else 0)) for j, f in enumerate(sh["fs"])]}
+                add([asg(dst, inst(0))])
+                add([asg(sig("o%d_0" % w, w), inst(0))])
+                add([asg(dst, inst(1))], "struct-wrong-width")
+                lits = dict(inst(0))
+                lits["args"] = [num((1 << f["t"]["w"]) - 1) for f in sh["fs"]]
+                add([asg(dst, lits)])
+                lits = dict(lits)
+                lits["args"] = [num(1 << sh["fs"][0]["t"]["w"])] + lits["args"][1:]        # one bit too wide for the field
+                add([asg(dst, lits)], "struct-wrong-width")
+        # the whole struct through other kinds of ports
+        w = shape_nbits(S)
+        ist, ost = ssig("ist_" + cls, S), ssig("ost_" + cls, S)
+        roots = [ssig("sub.po_" + cls, S), ssig("ifc.pi_" + cls, S),
+                 {"k": "elem", "name": "ars_" + cls, "n": ARR_LEN, "w": w, "st": True, "ty": S, "i": num(sn % ARR_LEN)},
+                 {"k": "elem", "name": "ars_" + cls, "n": ARR_LEN, "w": w, "st": True, "ty": S, "i": sig("x2_0", 2)},
+                 {"k": "sconst", "name": "KS_" + cls, "w": w, "st": True, "ty": S}]
+        for rt in roots:
+            add([asg(ost, rt)])
+            add([asg(sig("o%d_0" % w, w), rt)])
+            for n in plausible_wrong_widths(S)[:2]:
+                add([asg(sig("o%d_0" % n, n), rt)], "struct-wrong-width")
+            leafs = [(st, sh) for st, sh in eps if sh["k"] == "leaf"]
+            st, sh = leafs[sn % len(leafs)]
+            add([asg(sig("o%d_0" % sh["w"], sh["w"]), access(rt, S, st, const_index(sn)))])
+        for tg in (ssig("sub.pi_" + cls, S), ssig("ifc.po_" + cls, S)):
+            add([asg(tg, ist)])
+            add([asg(tg, sig("i%d_0" % w, w))])
+            for n in plausible_wrong_widths(S)[:2]:
+                add([asg(tg, sig("i%d_0" % n, n))], "struct-wrong-width")
+            leafs = [(st, sh) for st, sh in eps if sh["k"] == "leaf"]
+            st, sh = leafs[(sn + 1) % len(leafs)]
+            add([asg(access(tg, S, st, const_index(sn)), sig("i%d_0" % sh["w"], sh["w"]))])
+        # non-blocking variants
+        out.append(Block("Sf%d" % len(out), [asg(ost, ist)], ff=True, tag="struct"))
+        out.append(Block("Sf%d" % len(out), [asg(sig("o%d_0" % w, w), ist)], ff=True, tag="struct"))
+        out.append(Block("Sf%d" % len(out), [asg(ost, sig("i%d_0" % w, w))], ff=True, tag="struct"))
+        for n in plausible_wrong_widths(S)[:2]:
+            out.append(Block("Sf%d" % len(out), [asg(sig("o%d_0" % n, n), ist)], ff=True, tag="struct-wrong-width"))
+            out.append(Block("Sf%d" % len(out), [asg(ost, sig("i%d_0" % n, n))], ff=True, tag="struct-wrong-width"))
+    return out
+
+
 # ------------------------------------------------------------------------------------------
 # TLC model states -> blocks
 # ------------------------------------------------------------------------------------------
@@ -833,6 +1378,62 @@ def _loop_his(t, acc):
     for x in t.get("args", []):
         _loop_his(x, acc)
     return acc
+
+
+def _name_shape(sh, name, counter):
+    """shape of a TLC state (tuples / dicts without class names) -> generator shape with class names"""
+    if sh["k"] == "leaf":
+        return leaf(sh["w"])
+    if sh["k"] == "list":
+        return {"k": "list", "n": sh["n"], "t": _name_shape(sh["t"], name, counter)}
+    fields = [(f["n"], _name_shape(f["t"], name, counter)) for f in sh["fs"]]
+    counter[0] += 1
+    return struct("%s_%d" % (name, counter[0]), fields)
+
+
+def struct_model_block(name, st, tag="struct-model"):
+    """state (sh, path, op, tw) of RTLIRStructs.tla -> a block:
+         copy    s.ost.<path> @= s.ist.<path>
+         pack    s.o<tw>_0   @= s.ist.<path>
+         unpack  s.ost.<path> @= s.i<tw>_0
+       a constant index step is the literal, a variable index step a signal of clog2(n) bits"""
+    S = _name_shape(st["sh"], "T" + name, [0])
+    steps, idxs = [], []
+    for p in st["path"]:
+        if p["k"] == "f":
+            steps.append(("f", p["n"]))
+        else:
+            steps.append(("i", None))
+            idxs.append(p)
+
+    def chooser():
+        it = iter(idxs)
+
+        def ix(n):
+            p = next(it)
+            return num(p["i"]) if p["k"] == "c" else sig("x%d_%d" % (clog2(n), n), clog2(n))
+        return ix
+    # fill in the list lengths of the index steps
+    sh, full = S, []
+    for stp in steps:
+        if stp[0] == "f":
+            sh = next(f["t"] for f in sh["fs"] if f["n"] == stp[1])
+            full.append(stp)
+        else:
+            full.append(("i", sh["n"]))
+            sh = sh["t"]
+    src = access(ssig("ist_T", S), S, full, chooser())
+    dst = access(ssig("ost_T", S), S, full, chooser())
+    tw = st["tw"]
+    if st["op"] == "copy":
+        a = {"k": "assign", "t": dst, "v": src}
+    elif st["op"] == "pack":
+        a = {"k": "assign", "t": sig("o%d_0" % tw, tw), "v": src}
+    elif st["op"] == "unpack":
+        a = {"k": "assign", "t": dst, "v": sig("i%d_0" % tw, tw)}
+    else:
+        raise ValueError(st["op"])
+    return Block(name, [a], tag=tag)
 
 
 def model_block(name, e, tw, tag="model"):
